@@ -36,13 +36,14 @@ def tp(p):
 class Gen:
     def __init__(self, seed, profile="eval", nspaces=3, ncells=6, p_raise=0.06,
                  p_none=0.05, p_catch=0.08, p_uncached=0.25, p_lambda=0.2,
-                 obj_refs=True, allow_catch=True, p_base_exc=0.0, p_rr=0.0):
+                 obj_refs=True, allow_catch=True, p_base_exc=0.0, p_rr=0.0, p_chain=0.35):
         self.rng = random.Random(seed)
         self.profile = profile
         self.p_raise, self.p_none, self.p_catch = p_raise, p_none, p_catch
         self.p_uncached, self.p_lambda = p_uncached, p_lambda
         self.p_base_exc = p_base_exc
         self.p_rr = p_rr
+        self.p_chain = p_chain
         self.obj_refs = obj_refs
         self.allow_catch = allow_catch
         self.hot = []        # cells whose formulas ran in the most recent call (locality bias)
@@ -96,6 +97,7 @@ class Gen:
             self.refkind["t0"] = "sp"
             mir["refs"][tp(owner)]["t0"] = {"v": ["sp", list(tgt), [], ""],
                                             "mode": rng.choice(["auto", "absolute"])}
+        self.chainy = rng.random() < self.p_chain
         cand = [(tp(p), rn) for p in sp for rn, r in mir["refs"][tp(p)].items() if r["v"][0] == "int"]
         self.hot_ref = rng.choice(cand) if cand and rng.random() < 0.7 else None
         # cells names with rank and signature
@@ -221,6 +223,11 @@ class Gen:
                 uses_stmt = True
             else:
                 ops.append(["const", rng.choice([1, 2, 3])])
+        if getattr(self, "chainy", False):
+            # deep chains: every cells also calls one of the next lower rank
+            prev = [(p, c) for p, c in lower if self.rank[c] == rk - 1]
+            if prev and not any(op[0] == "call" and op[1][-1] == prev[0][1] for op in ops):
+                ops.insert(rng.randrange(1, len(ops) + 1), self.mk_call_op(sp, ps, prev))
         catch = self.allow_catch and rng.random() < self.p_catch
         style = "def"
         if not uses_stmt and not catch and rng.random() < self.p_lambda:
@@ -583,6 +590,28 @@ class Gen:
             # failure is asked again
             if isinstance(res, int) and res >= -2:
                 self.ok_calls = (getattr(self, "ok_calls", []) + [dict((k, op[k]) for k in ("op", "c", "args", "sp"))])[-3:]
+                # scenario "edit a precedent": one of the elements this evaluation computed (at any
+                # depth, through cached or uncached cells) is assigned or cleared; then ask again
+                w = PROFILES[self.profile]
+                if w.get("set_value", 0) >= 10 and not self.queue and self.rng.random() < (
+                        0.6 if getattr(self, "chainy", False) else 0.3):
+                    done, depth = [], 0
+                    for f in ev.get("fx", []):
+                        depth += 1 if f[0] == "enter" else -1
+                        if f[0] == "exit" and not f[1][1] and f[1][:3] != op["c"] \
+                                and tp(f[1][0]) in self.mir["cells"] \
+                                and f[1][2] in self.mir["cells"][tp(f[1][0])] \
+                                and self.mir["cells"][tp(f[1][0])][f[1][2]]["cached"]:
+                            done.append((depth, f[1]))
+                    if done:
+                        # mostly the deepest one: the longest path back to what was asked
+                        deepest = max(d for d, _ in done)
+                        n = self.rng.choice([x for d, x in done if d == deepest]
+                                            if self.rng.random() < 0.7 else [x for _, x in done])
+                        edit = ({"op": "set_value", "c": [n[0], [], n[2]], "args": list(n[3]),
+                                 "v": self.rng.choice([500, 600, 700])} if self.rng.random() < 0.7 else
+                                {"op": "clear_at", "c": [n[0], [], n[2]], "args": list(n[3])})
+                        self.queue += [edit, dict((k, op[k]) for k in ("op", "c", "args", "sp"))]
             elif ev.get("tb") and self.profile == "fail" and self.rng.random() < 0.35:
                 node = self.rng.choice(ev["tb"])[0]
                 if not node[1] and tp(node[0]) in self.mir["cells"] and node[2] in self.mir["cells"][tp(node[0])]:
